@@ -16,6 +16,7 @@
 #   limitations under the License.
 #
 
+import re
 import warnings
 from collections import defaultdict, namedtuple
 from io import TextIOWrapper, StringIO
@@ -79,7 +80,13 @@ class SmtLibCommand(namedtuple('SmtLibCommand', ['name', 'args'])):
         assert outstream is not None and printer is not None
 
         if self.name == smtcmd.SET_OPTION:
-            outstream.write("(%s %s %s)" % (self.name,self.args[0],self.args[1]))
+            value = str(self.args[1])
+            # Numerals and string literals are written as they are,
+            # a symbol is quoted if it needs to be
+            if not (value.startswith('"') or
+                    re.match(r"^([0-9]+(\.[0-9]+)?|#b[01]+|#x[0-9a-fA-F]+)\Z", value)):
+                value = quote(value)
+            outstream.write("(%s %s %s)" % (self.name, self.args[0], value))
 
         elif self.name == smtcmd.SET_INFO:
             outstream.write("(%s %s %s)" % (self.name,self.args[0],
